@@ -12,6 +12,9 @@ const (
 
 func SettingLines(comment string) (lines []string) {
 	scanner := bufio.NewScanner(strings.NewReader(comment))
+	// a line may be longer than the default token size of the scanner, the
+	// scan would stop there and drop the remaining lines
+	scanner.Buffer(nil, len(comment)+1)
 	for scanner.Scan() {
 		line := strings.TrimSpace(scanner.Text())
 		if strings.HasPrefix(line, Prefix+Delimiter) {
